@@ -648,6 +648,8 @@ func (g *genr) augment(m *Module, set *Set) {
 		if p.Kw == "rpc" || p.Kw == "action" {
 			if g.bad(0.1) {
 				target += "/" + pfx + ":bogus"
+			} else if g.bad(0.1) {
+				// the rpc / action itself: not a node that can have children
 			} else {
 				target += "/" + pfx + ":" + g.pick([]string{"input", "output"})
 			}
